@@ -48,7 +48,10 @@ class UnicodeUnslicer(LeafUnslicer):
         assert ready_deferred is None
         if self.string != None:
             raise BananaError("already received a string")
-        self.string = obj.decode("UTF-8")
+        try:
+            self.string = obj.decode("UTF-8")
+        except UnicodeDecodeError:
+            raise Violation("the body of a unicode sequence is not UTF-8")
 
     def receiveClose(self):
         return self.string, None
